@@ -66,7 +66,9 @@ PROPS = {
     },
     "C05": {
         "modules": ["Resolved.Props.C05"],
-        "streams": [{"name": "cache", "quick": 4000, "thorough": 800000}],
+        "streams": [{"name": "cache", "quick": 4000, "thorough": 800000},
+                    # the cache as the resolver uses it: questions asked after cached records have run out
+                    {"name": "resolve-local", "quick": 3000, "thorough": 100000}],
         "trivial_tags": [r":bad-op", r"cache\.hist.*:len0/"],
         "assumptions": [
             "the real monotonic clock is replaced by the virtual clock hook (cfg resolved_verif)",
@@ -111,7 +113,7 @@ PROPS = {
         "assumptions": ["D7: upstream servers list alias chains in chain order and answer with records of the asked type"],
     },
     "C07": {
-        "modules": ["Resolved.Props.C07", "Resolved.Props.C07Universe", "Resolved.Props.C06"],
+        "modules": ["Resolved.Props.C07", "Resolved.Props.C07Universe", "Resolved.Props.C07Universe2", "Resolved.Props.C06"],
         "streams": [{"name": "resolve-universe", "quick": 2400, "thorough": 200000}],
         "trivial_tags": [r":bad-op", r"/x0$"],
         "assumptions": ["D8: RRsets carry one TTL; answers compared up to TTL and order inside the final RRset",
@@ -166,6 +168,8 @@ PROPS = {
         "bins": ["resolved"],
         "streams": [{"name": "reload", "quick": 60, "thorough": 1500, "shards": 4},
                     {"name": "reload-blocked", "quick": 4, "thorough": 60, "shards": 2},
+                    # reloads while the server is busy: a large previous configuration, a query stuck on a silent forwarder
+                    {"name": "reload-live", "quick": 2, "thorough": 8, "shards": 1, "fixed": True},
                     {"name": "config-load", "quick": 600, "thorough": 20000}],
         "trivial_tags": [r":bad-op", r"reload/ok0/failed0"],
         "assumptions": [
